@@ -865,6 +865,120 @@ def check_decision(ctx, corr, n):
         corr.inconclusive.append("fewer than 20% decision scenarios with a removal")
 
 
+# ---------------------------------------------------------------------------------------------
+# (d) numeric half of LocalNetwork::singular_coords(A): model Gama.SingularCoords vs the REAL private member
+# ---------------------------------------------------------------------------------------------
+
+def sc_case(rng):
+    """k points (ids ascending), xy statuses, index_x/index_y into a dense matrix whose column pairs are
+    planted: generic / exactly parallel / nearly parallel around the 1e-12 threshold / orthogonal /
+    one zero column / both zero / missing index"""
+    k = rng.randint(1, 4)
+    rows = rng.randint(1, 6)
+    cols = 2 * k
+    A = [[0.0] * cols for _ in range(rows)]
+    pts, expect = [], {}
+    for j in range(k):
+        pid = "ABCD"[j]
+        st = rng.choice("uaaaccf")
+        ix, iy = 2 * j + 1, 2 * j + 2
+        if rng.random() < 0.5:
+            ix, iy = iy, ix
+        kind = rng.choice(["generic", "parallel", "near5", "near6", "near7", "orth", "zero1", "zero2", "noindex"])
+        a = [float(rng.randint(-9, 9)) for _ in range(rows)]
+        if all(v == 0 for v in a):
+            a[0] = 3.0
+        if kind == "generic":
+            b = [rng.uniform(-10, 10) for _ in range(rows)]
+        elif kind == "parallel":
+            lam = rng.choice([0.5, -2.0, 4.0, 1.0, -0.25])
+            b = [lam * v for v in a]
+        elif kind.startswith("near"):
+            eps = {"near5": 1e-5, "near6": 1e-6, "near7": 1e-7}[kind]
+            lam = rng.choice([0.5, -2.0, 1.0])
+            b = [lam * v + eps * rng.uniform(-1, 1) for v in a]
+        elif kind == "orth":
+            a = [0.0] * rows
+            b = [0.0] * rows
+            a[0] = float(rng.randint(1, 9))
+            if rows > 1:
+                b[1] = float(rng.randint(1, 9))
+            else:
+                kind = "zero1"
+        elif kind == "zero1":
+            b = [0.0] * rows
+            if rng.random() < 0.5:
+                a, b = b, a
+        elif kind == "zero2":
+            a = [0.0] * rows
+            b = [0.0] * rows
+        else:
+            b = [rng.uniform(-10, 10) for _ in range(rows)]
+        for r in range(rows):
+            A[r][ix - 1] = a[r]
+            A[r][iy - 1] = b[r]
+        if kind == "noindex":
+            if rng.random() < 0.5:
+                ix = 0
+            else:
+                iy = 0
+        pts.append((pid, st, ix, iy))
+        live = st in "ac"
+        if live:
+            if kind in ("parallel", "zero2", "noindex"):
+                expect[pid] = True
+            elif kind in ("orth", "zero1") or (kind == "generic" and rows >= 2):
+                expect[pid] = False if kind != "generic" else None
+        else:
+            expect[pid] = False
+    line = f"sc {k} " + " ".join(f"{p} {s} {i} {j}" for p, s, i, j in pts) + f" {rows} {cols} " + \
+        " ".join(float2hex(A[r][c]) for r in range(rows) for c in range(cols))
+    return [line], pts, expect
+
+
+def check_singular(ctx, corr, n):
+    exe = nd_harness(ctx)
+    cases, meta = [], []
+    for _ in range(n):
+        c, pts, expect = sc_case(ctx.rng)
+        cases.append(c)
+        meta.append((pts, expect))
+    impl, crashes = run_cases(exe, cases)
+    model, _ = run_cases(ctx.driver("drv_netdecision"), cases)
+    for i, (c, (pts, expect)) in enumerate(zip(cases, meta)):
+        rep = {"stream": "sc", "ops": c}
+        corr.count("sc_cases")
+        if i in crashes:
+            corr.case(key=None)
+            corr.fail("singular_coords harness crashed / sanitizer report", rep, "LocalNetwork::singular_coords", crashes[i][1])
+            continue
+        out = impl[i][0] if impl[i] else ""
+        t = out.split()
+        removed = [] if "|" not in t else [w for w in t[t.index("|") + 1:] if w != "-"]
+        corr.case(key=c[0] if removed else None, sample={"ops": c, "impl": impl[i], "model": model[i]} if i < 2 else None)
+        if removed:
+            corr.count("sc_with_removal")
+        if impl[i] != model[i]:
+            corr.disagree("sc", c, impl[i], model[i], "singular_coords: flag / statuses / removed ids")
+            continue
+        if not t or t[0] != "sing":
+            corr.fail("singular_coords op not answered: " + out, rep, "LocalNetwork::singular_coords")
+            continue
+        # oracle on the implementation's own answer
+        if (t[1] == "1") != bool(removed):
+            corr.fail(f"singular_coords returned {t[1]} but removed {removed}", rep, "LocalNetwork::singular_coords")
+        for pid, want in expect.items():
+            if want is None:
+                continue
+            if want != (pid in removed):
+                corr.fail(f"singular_coords: point {pid} " + ("not removed although its xy columns are exactly dependent / an index is missing"
+                          if want else "removed although its xy columns are orthogonal / one is zero / the point is fixed or unused"),
+                          rep, "LocalNetwork::singular_coords")
+    tot = corr.stats.get("sc_cases", 0)
+    if tot and corr.stats.get("sc_with_removal", 0) < 0.2 * tot:
+        corr.inconclusive.append("fewer than 20% singular_coords cases with a removal")
+
+
 def correspond(ctx, corr):
     check_ls(ctx, corr, ctx.size(16, 700))
     ctx.log("solver level done:", {k: v for k, v in corr.stats.items() if k.startswith("ls_g") or k.startswith("ls_s")})
@@ -872,6 +986,7 @@ def correspond(ctx, corr):
     check_g3(ctx, corr)
     ctx.log("network level done")
     check_decision(ctx, corr, ctx.size(150, 4000))
+    check_singular(ctx, corr, ctx.size(200, 4000))
 
 
 def search(ctx, broken, corr):
